@@ -27,7 +27,9 @@ type Axiom struct {
 	Term *Term
 	Syms map[string]bool
 	Text string
+	LemmaOnly bool
 	PatSyms []map[string]bool
+	PatLits []map[string]bool // string literals occurring in each pattern: a pattern can only match if they occur in the query
 }
 
 type Prelude struct {
@@ -108,7 +110,7 @@ func buildPrelude(u *Universe) (*Prelude, error) {
 			if l.Use != "" {
 				am = l.Use
 			}
-			ax := &Axiom{Index: li, IsLemma: !l.Axiom, Name: l.Name, Mode: am, Term: t, Syms: termSyms(t), Text: l.Text}
+			ax := &Axiom{Index: li, IsLemma: !l.Axiom, Name: l.Name, Mode: am, Term: t, Syms: termSyms(t), Text: l.Text, LemmaOnly: l.LemmaOnly}
 			if t.Op == "forall" {
 				bound := map[string]bool{}
 				for _, b := range t.Bind {
@@ -124,6 +126,11 @@ func buildPrelude(u *Universe) (*Prelude, error) {
 						}
 					}
 					ax.PatSyms = append(ax.PatSyms, ps)
+					pl := map[string]bool{}
+					for _, e := range pat {
+						termLits(e, pl)
+					}
+					ax.PatLits = append(ax.PatLits, pl)
 				}
 			}
 			p.axioms = append(p.axioms, ax)
@@ -133,6 +140,47 @@ func buildPrelude(u *Universe) (*Prelude, error) {
 }
 
 // termSyms: all non-builtin symbols (function and constant names) in a term.
+// guardPreds: head symbols of the atoms that guard an axiom of the form forall ..: H1 && ... && Hn ==> C.
+func guardPreds(t *Term) []string {
+	for t.Op == "forall" {
+		t = t.Args[0]
+	}
+	var out []string
+	for t.Op == "=>" && len(t.Args) == 2 {
+		var walk func(h *Term)
+		walk = func(h *Term) {
+			if h.Op == "and" {
+				for _, a := range h.Args {
+					walk(a)
+				}
+				return
+			}
+			if h.Sort == SBool && len(h.Args) > 0 && !smtBuiltins[h.Op] && h.Op != "mention" {
+				out = append(out, h.Op)
+			}
+		}
+		walk(t.Args[0])
+		t = t.Args[1]
+	}
+	return out
+}
+
+// termLits collects the string literals of a term (patterns included).
+func termLits(t *Term, out map[string]bool) {
+	if t.Op == "strlit" {
+		out[t.Lit] = true
+		return
+	}
+	for _, a := range t.Args {
+		termLits(a, out)
+	}
+	for _, pat := range t.Pats {
+		for _, e := range pat {
+			termLits(e, out)
+		}
+	}
+}
+
 func termSyms(t *Term) map[string]bool {
 	out := map[string]bool{}
 	var walk func(t *Term, bound map[string]bool)
@@ -216,6 +264,10 @@ func (p *Prelude) buildQuery(o *Obligation, wantModel bool, sizeCap int) string 
 			used[s] = true
 		}
 	}
+	usedLits := map[string]bool{}
+	for _, t := range append(append([]*Term(nil), terms...), extra...) {
+		termLits(t, usedLits)
+	}
 	var axioms []*Axiom
 	taken := map[*Axiom]bool{}
 	for changed := true; changed; {
@@ -228,6 +280,12 @@ func (p *Prelude) buildQuery(o *Obligation, wantModel bool, sizeCap int) string 
 						changed = true
 					}
 				}
+				// literals inside the body of a used defined function can be matched by patterns too
+				nl := len(usedLits)
+				termLits(p.funBody[name], usedLits)
+				if len(usedLits) != nl {
+					changed = true
+				}
 			}
 		}
 		for _, a := range p.axioms {
@@ -237,10 +295,19 @@ func (p *Prelude) buildQuery(o *Obligation, wantModel bool, sizeCap int) string 
 			if a.IsLemma && o.LemmaIndex >= 0 && a.Index >= o.LemmaIndex {
 				continue
 			}
+			if a.LemmaOnly && o.Kind != "lemma" && o.LemmaIndex < 0 {
+				continue
+			}
 			rel := false
 			if len(a.PatSyms) > 0 {
-				for _, ps := range a.PatSyms {
+				for pi, ps := range a.PatSyms {
 					all := true
+					for l := range a.PatLits[pi] {
+						if !usedLits[l] {
+							all = false
+							break
+						}
+					}
 					for sname := range ps {
 						if !used[sname] && !strings.HasPrefix(sname, "lit!") {
 							all = false
@@ -261,10 +328,24 @@ func (p *Prelude) buildQuery(o *Obligation, wantModel bool, sizeCap int) string 
 						}
 					}
 				}
+				// an implication guarded by an uninterpreted predicate that occurs nowhere in the query can never fire
+				if rel {
+					for _, g := range guardPreds(a.Term) {
+						if f, ok := u.Specs.Funs[g]; ok && (f.Body == nil || !modeOK(f.Mode, mode)) && !used[g] {
+							rel = false
+							break
+						}
+					}
+				}
 			}
 			if rel {
 				taken[a] = true
 				axioms = append(axioms, a)
+				nl := len(usedLits)
+				termLits(a.Term, usedLits)
+				if len(usedLits) != nl {
+					changed = true
+				}
 				for s := range a.Syms {
 					if !used[s] {
 						used[s] = true
@@ -274,7 +355,81 @@ func (p *Prelude) buildQuery(o *Obligation, wantModel bool, sizeCap int) string 
 			}
 		}
 	}
+	// dead-symbol pruning: an axiom all of whose uninterpreted specification functions occur neither in the
+	// obligation nor in any other selected axiom only constrains those functions and cannot contribute to a proof;
+	// dropping it (always sound) keeps E-matching away from irrelevant instantiations.
+	{
+		closure := func(syms map[string]bool) map[string]bool {
+			out := map[string]bool{}
+			var add func(s string)
+			add = func(s string) {
+				if out[s] {
+					return
+				}
+				out[s] = true
+				if f, ok := u.Specs.Funs[s]; ok && f.Body != nil && modeOK(f.Mode, mode) {
+					for d := range p.funSyms[s] {
+						add(d)
+					}
+				}
+			}
+			for s := range syms {
+				add(s)
+			}
+			return out
+		}
+		isUninterp := func(s string) bool {
+			f, ok := u.Specs.Funs[s]
+			return ok && (f.Body == nil || !modeOK(f.Mode, mode))
+		}
+		base := map[string]bool{}
+		for _, t := range append(append([]*Term(nil), terms...), extra...) {
+			for s := range closure(termSyms(t)) {
+				base[s] = true
+			}
+		}
+		axSyms := map[*Axiom]map[string]bool{}
+		for _, a := range axioms {
+			axSyms[a] = closure(a.Syms)
+		}
+		for changed := true; changed; {
+			changed = false
+			count := map[string]int{}
+			for _, a := range axioms {
+				for s := range axSyms[a] {
+					if isUninterp(s) {
+						count[s]++
+					}
+				}
+			}
+			var keep []*Axiom
+			for _, a := range axioms {
+				// dead: the axiom has uninterpreted specification functions and none of them occurs elsewhere
+				dead, any := true, false
+				for s := range axSyms[a] {
+					if isUninterp(s) {
+						any = true
+						if base[s] || count[s] > 1 {
+							dead = false
+							break
+						}
+					}
+				}
+				dead = dead && any
+				if dead {
+					changed = true
+					continue
+				}
+				keep = append(keep, a)
+			}
+			axioms = keep
+		}
+	}
 	sort.Slice(axioms, func(i, j int) bool { return axioms[i].Name < axioms[j].Name })
+	if mode == "lines" && (used["nl"] || used["seg"]) {
+		// the facts about the lines of string literals mention both
+		used["nl"], used["seg"] = true, true
+	}
 	o.LemmasUsed = nil
 	for _, a := range axioms {
 		if a.IsLemma {
@@ -554,7 +709,10 @@ func linesExtInstances(terms []*Term) []*Term {
 		}
 		if t.Op == "=" && len(t.Args) == 2 && t.Args[0].Sort == SStr && !bound {
 			a, b := t.Args[0], t.Args[1]
-			if a.Op != "strlit" || b.Op != "strlit" {
+			// two plain reads of heap cells are equal by what the hypotheses say about the state,
+			// never line by line: no extensionality instance for them
+			plain := func(x *Term) bool { return x.Op == "select" }
+			if (a.Op != "strlit" || b.Op != "strlit") && !(plain(a) && plain(b)) {
 				key := a.String() + "=" + b.String()
 				if !seen[key] && len(seen) < 12 {
 					seen[key] = true
